@@ -21,7 +21,7 @@ EXPLANATION = (
     "only for an empty insertion."
 )
 NOT_DECIDED = ("shapes and block sizes beyond the catalogue (rows <= 4, width <= 6): the compositing is slice arithmetic over "
-               "runtime values, so this is a bounded claim; constructor formatting arguments.")
+               "runtime values, so this is a bounded claim.")
 
 BLANK = (" ", ())
 
@@ -117,16 +117,21 @@ def rule_semantic(src, rep, counts):
             cases.append((strings, width, r0, r1, c0, c1, ["x"] * (r1 - r0 + 1), False))          # wrong row count
             cases.append((strings, width, r0, r1, c0, c1, (["xy", "", "q", "xyz"] * 2)[:r1 - r0], True))   # mixed, formatted
             cases.append((strings, width, r0, r1, c0, c1, (["q", "xy", "", "x"] * 2)[:r1 - r0], "array"))   # block given as an FSArray
+            cases.append((strings, width, r0, r1, c0, c1, (["xy", "", "q", "xyz"] * 2)[:r1 - r0], "ctor"))   # array built with bg='blue'
             same = [(strings[r][c0:c1] if r < H else "") for r in range(r0, r1)]
             if any(same):
                 cases.append((strings, width, r0, r1, c0, c1, same, True))      # the text already there, other formatting
     def one(case):
         strings, width, r0, r1, c0, c1, block, fmt = case
-        r = it.call1("formatstringarray", "fsarray", list(strings), width)
+        ctor = {}
+        if fmt == "ctor":
+            # constructor formatting arguments: fsarray(strings, width, bg='blue') - rows show the strings on blue
+            ctor, fmt = {"bg": "blue"}, False
+        r = it.call1("formatstringarray", "fsarray", list(strings), width, **ctor)
         if r[0] != "ok":
             return ("error", "fsarray(%r, %r) not evaluable: %s" % (strings, width, r))
         arr = r[1]
-        ref = Ref([[(ch, ()) for ch in s] for s in strings], width)
+        ref = Ref([[(ch, (("bg", 44),) if ctor else ()) for ch in s] for s in strings], width)
         vals = [red(b) if fmt is True and b else b for b in block]
         bcells = [[(ch, (("fg", 31),) if fmt is True and b else ()) for ch in b] for b in block]
         if fmt == "array":
@@ -146,7 +151,8 @@ def rule_semantic(src, rep, counts):
         except ValueError:
             expect_err = True
         after = _strip(_shown(arr))
-        desc = "array %r (width %d): a[%d:%d, %d:%d] = %r%s" % (strings, width, r0, r1, c0, c1, block, " (red)" if fmt is True else " (as FSArray)" if fmt else "")
+        desc = "array %r (width %d%s): a[%d:%d, %d:%d] = %r%s" % (strings, width, ", built with bg='blue'" if ctor else "", r0, r1, c0, c1, block,
+                                                                 " (red)" if fmt is True else " (as FSArray)" if fmt else "")
         if any(len(x) > width for x in _cells_of_rows(arr)):
             return ("A-never-wider-than-the-array", desc, "a row is wider than the array: %s" % [len(x) for x in _cells_of_rows(arr)])
         if expect_err:
